@@ -487,15 +487,17 @@ Proof.
   rewrite forallb_forall in Hall. specialize (Hall a Ha). apply existsb_exists in Hall. destruct Hall as (b & Hb & Hab).
   apply existsb_exists. exists (hnorm b). split; [apply in_map; exact Hb|]. rewrite Forall_forall in HF. exact (HF a Ha b Hab).
 Qed.
+Lemma int_hash_b2z : forall b, int_hash (b2z b) = b2z b.
+Proof. intros [|]; reflexivity. Qed.
 Lemma hnorm_respects_eq : forall a b, py_eq a b = true -> py_eq (hnorm a) (hnorm b) = true.
 Proof.
   induction a using pyval_ind'; intros v Heq.
   - destruct v; cbn in Heq; try discriminate. reflexivity.
   - destruct v; cbn in Heq; try discriminate; cbn [hnorm]; [exact Heq|].
-    destruct (Z.eqb z (-1)) eqn:E; [apply Z.eqb_eq in E; subst; destruct b; discriminate | exact Heq].
-  - destruct v; cbn in Heq; try discriminate; cbn [hnorm].
-    + destruct (Z.eqb z (-1)) eqn:E; [apply Z.eqb_eq in E; subst; destruct b; discriminate | exact Heq].
-    + apply Z.eqb_eq in Heq. subst z0. destruct (Z.eqb z (-1)); cbn; try reflexivity; apply Z.eqb_refl.
+    apply Z.eqb_eq in Heq. subst z. cbn [py_eq num_of]. rewrite int_hash_b2z. apply Z.eqb_refl.
+  - destruct v; cbn in Heq; try discriminate; cbn [hnorm]; apply Z.eqb_eq in Heq; subst; cbn [py_eq num_of].
+    + rewrite int_hash_b2z. apply Z.eqb_refl.
+    + apply Z.eqb_refl.
   - destruct v; cbn in Heq; try discriminate; cbn [hnorm]. apply String.eqb_eq in Heq. subst s0.
     destruct (String.eqb s ""); [reflexivity | cbn; apply String.eqb_refl].
   - destruct v; cbn [py_eq] in Heq; try discriminate; cbn [hnorm py_eq]. apply all2_map_hnorm; assumption.
@@ -503,7 +505,26 @@ Proof.
   - destruct v; cbn [py_eq] in Heq; try discriminate; cbn [hnorm py_eq]; apply set_map_hnorm; assumption.
   - destruct v; cbn [py_eq] in Heq; try discriminate; cbn [hnorm py_eq]; apply set_map_hnorm; assumption.
   - destruct v; cbn [py_eq] in Heq; try discriminate; cbn [hnorm]. exact Heq.
-  - destruct v; cbn in Heq; try discriminate; cbn [hnorm]. exact Heq.
+  - destruct v; cbn in Heq; try discriminate; cbn [hnorm]. apply Nat.eqb_eq in Heq. subst n0. cbn [py_eq]. apply String.eqb_refl.
+Qed.
+
+(* equal canonical forms have equal hashes ... *)
+Lemma canon_eqb_base_eqb : forall a b, canon_eqb a b = true -> base_eqb a b = true.
+Proof.
+  intros a b H. unfold canon_eqb in H. unfold base_eqb. apply andb_true_iff in H. destruct H as [H1 H2].
+  destruct (hash_key (VDict (g_group a))) as [x|]; [|discriminate]. destruct (hash_key (VDict (g_group b))) as [y|]; [|discriminate].
+  rewrite (hnorm_respects_eq _ _ H1), H2. reflexivity.
+Qed.
+(* ... and equal options have equal canonical forms *)
+Lemma agree_canon_eqb : forall a b,
+  wfv (VDict (g_group a)) -> wfv (VDict (g_group b)) -> nofs (VDict (g_group a)) -> nofs (VDict (g_group b)) ->
+  hash_key (VDict (g_group a)) <> None -> hash_key (VDict (g_group b)) <> None ->
+  opts_agree a b = true -> canon_eqb a b = true.
+Proof.
+  intros a b Wa Wb Na Nb Ha Hb H. unfold opts_agree in H. apply andb_true_iff in H. destruct H as [H1 H2].
+  unfold canon_eqb. destruct (hash_key (VDict (g_group a))) as [x|] eqn:Ea; [|congruence].
+  destruct (hash_key (VDict (g_group b))) as [y|] eqn:Eb; [|congruence].
+  rewrite (hash_key_respects_eq_l _ _ x y Wa Wb Na Nb H1 Ea Eb), H2. reflexivity.
 Qed.
 
 (* features with equal (group options, frameworks) are in the same hash class ... *)
@@ -511,27 +532,40 @@ Lemma equal_options_same_class_l : forall a b,
   wfv (VDict (g_group a)) -> wfv (VDict (g_group b)) -> nofs (VDict (g_group a)) -> nofs (VDict (g_group b)) ->
   hash_key (VDict (g_group a)) <> None -> hash_key (VDict (g_group b)) <> None ->
   opts_agree a b = true -> base_eqb a b = true.
-Proof.
-  intros a b Wa Wb Na Nb Ha Hb H. unfold opts_agree in H. apply andb_true_iff in H. destruct H as [H1 H2].
-  unfold base_eqb. destruct (hash_key (VDict (g_group a))) as [x|] eqn:Ea; [|congruence].
-  destruct (hash_key (VDict (g_group b))) as [y|] eqn:Eb; [|congruence].
-  rewrite (hnorm_respects_eq _ _ (hash_key_respects_eq_l _ _ x y Wa Wb Na Nb H1 Ea Eb)), H2. reflexivity.
-Qed.
+Proof. intros a b Wa Wb Na Nb Ha Hb H. apply canon_eqb_base_eqb. apply agree_canon_eqb; assumption. Qed.
 
-(* ... but not conversely: a list and a tuple with the same elements *)
-Definition hc_a : gfeat := {| g_id := 0; g_group := [(KStr "c", VList [VInt 1%Z; VInt 2%Z])]; g_ctx := []; g_cfw := None; g_ty := Some 1 |}.
-Definition hc_b : gfeat := {| g_id := 1; g_group := [(KStr "c", VTuple [VInt 1%Z; VInt 2%Z])]; g_ctx := []; g_cfw := None; g_ty := Some 1 |}.
-(* nor an empty string and a zero: hash("") = hash(0) *)
-Definition hc_c : gfeat := {| g_id := 0; g_group := [(KStr "c", VStr "")]; g_ctx := []; g_cfw := None; g_ty := Some 1 |}.
-Definition hc_d : gfeat := {| g_id := 1; g_group := [(KStr "c", VInt 0%Z)]; g_ctx := []; g_cfw := None; g_ty := Some 1 |}.
-Lemma hash_collision_refuted_l :
-  opts_agree hc_c hc_d = false /\ base_eqb hc_c hc_d = true /\ group_features [hc_c; hc_d] = [[0; 1]].
-Proof. repeat split. Qed.
-
+(* ... but not conversely.  (1) one canonical form for unequal options: a list and a tuple with the same elements *)
+Definition gf1 (i : nat) (v : pyval) : gfeat := {| g_id := i; g_group := [(KStr "c", v)]; g_ctx := []; g_cfw := None; g_ty := Some 1 |}.
+Definition hc_a : gfeat := gf1 0 (VList [VInt 1%Z; VInt 2%Z]).
+Definition hc_b : gfeat := gf1 1 (VTuple [VInt 1%Z; VInt 2%Z]).
 Lemma hash_conflation_refuted_l :
-  opts_agree hc_a hc_b = false /\ base_eqb hc_a hc_b = true /\ kf_hash_conflation [hc_a; hc_b] = true /\
-  group_features [hc_a; hc_b] = [[0; 1]].
-Proof. repeat split. Qed.
+  opts_agree hc_a hc_b = false /\ canon_eqb hc_a hc_b = true /\ base_eqb hc_a hc_b = true /\
+  kf_canon_conflation [hc_a; hc_b] = true /\ kf_hash_collision [hc_a; hc_b] = false /\ kf_hash_conflation [hc_a; hc_b] = true /\
+  group_features [hc_a; hc_b] = [[0; 1]] /\ group_features_eq [hc_a; hc_b] = [[0]; [1]].
+Proof. vm_compute. repeat split. Qed.
+
+(* (2) different canonical forms with one hash integer: hash(-1) = hash(-2) *)
+Definition hc_e : gfeat := gf1 0 (VInt (-1)%Z).
+Definition hc_f : gfeat := gf1 1 (VInt (-2)%Z).
+Lemma hash_collision_refuted_l :
+  opts_agree hc_e hc_f = false /\ canon_eqb hc_e hc_f = false /\ base_eqb hc_e hc_f = true /\
+  kf_hash_collision [hc_e; hc_f] = true /\ kf_canon_conflation [hc_e; hc_f] = false /\ kf_hash_conflation [hc_e; hc_f] = true /\
+  group_features [hc_e; hc_f] = [[0; 1]] /\ group_features_eq [hc_e; hc_f] = [[0]; [1]].
+Proof. vm_compute. repeat split. Qed.
+(* the other collisions of the modelled hash: "" / 0, z / z mod (2^61 - 1), an Enum member / its name, and the same
+   inside a tuple, a list, a nested dict (each pair is replayed on the implementation by the harness) *)
+Definition collide_pairs : list (pyval * pyval) :=
+  [ (VStr "", VInt 0%Z); (VStr "", VBool false); (VInt 2305843009213693951%Z, VInt 0%Z); (VInt 2305843009213693952%Z, VBool true);
+    (VInt (-2305843009213693952)%Z, VInt (-2)%Z); (VOpq 0 true, VStr "E0");
+    (VTuple [VInt (-1)%Z], VTuple [VInt (-2)%Z]); (VList [VInt 1%Z; VInt (-1)%Z], VList [VInt 1%Z; VInt (-2)%Z]);
+    (VDict [(KStr "q", VInt (-1)%Z)], VDict [(KStr "q", VInt (-2)%Z)]); (VDict [(KStr "", VInt 1%Z)], VDict [(KInt 0, VInt 1%Z)]);
+    (VSet [VInt (-1)%Z], VSet [VInt (-2)%Z]) ].
+Lemma hash_collision_pairs_l :
+  forallb (fun p => let a := gf1 0 (fst p) in let b := gf1 1 (snd p) in
+                    base_eqb a b && negb (canon_eqb a b) && negb (opts_agree a b)
+                    && all2 (all2 Nat.eqb) (group_features [a; b]) [[0; 1]]
+                    && all2 (all2 Nat.eqb) (group_features_eq [a; b]) [[0]; [1]]) collide_pairs = true.
+Proof. vm_compute. reflexivity. Qed.
 
 (* when the hash-class relation is an equivalence on the request (it is: equality of hash integers), the class index
    of two features is the same iff they are related *)
@@ -569,4 +603,54 @@ Proof.
     destruct (base_eqb x a) eqn:E1, (base_eqb x b) eqn:E2; try reflexivity.
     + rewrite (Ht x a b Hx Ha Hb E1 H) in E2. discriminate.
     + rewrite (Ht x b a Hx Hb Ha E2 (Hs a b Ha Hb H)) in E1. discriminate.
+Qed.
+
+(* ---------- outside the two domains the hash-based grouping IS grouping by equality ---------- *)
+Lemma existsb_false_in : forall A (p : A -> bool) l x, existsb p l = false -> In x l -> p x = false.
+Proof.
+  intros A p l x H Hx. destruct (p x) eqn:E; [|reflexivity].
+  assert (existsb p l = true) by (apply existsb_exists; exists x; split; assumption). congruence.
+Qed.
+Lemma no_conflation_agree : forall fs, kf_hash_conflation fs = false ->
+  forall a b, In a fs -> In b fs -> base_eqb a b = true -> opts_agree a b = true.
+Proof.
+  intros fs H a b Ha Hb E. unfold kf_hash_conflation in H.
+  pose proof (existsb_false_in _ _ _ a H Ha) as H1. cbv beta in H1.
+  pose proof (existsb_false_in _ _ _ b H1 Hb) as H2. cbv beta in H2. rewrite E in H2.
+  destruct (opts_agree a b); [reflexivity | discriminate].
+Qed.
+Lemma grouping_by_equality_partial_l : forall fs, hashable_request fs -> kf_hash_conflation fs = false ->
+  group_features fs = group_features_eq fs.
+Proof.
+  intros fs Hh Hk. unfold group_features, group_features_eq. f_equal. f_equal. apply map_ext_in. intros x Hx.
+  unfold item_of, item_of_eq. f_equal. unfold base_class, eq_class. apply first_idx_ext. intros y Hy. cbv beta.
+  destruct (base_eqb y x) eqn:E1, (opts_agree y x) eqn:E2; try reflexivity.
+  - rewrite (no_conflation_agree fs Hk y x Hy Hx E1) in E2. discriminate.
+  - destruct (Hh y Hy) as (Wy & Ny & Hy'). destruct (Hh x Hx) as (Wx & Nx & Hx').
+    rewrite (equal_options_same_class_l y x Wy Wx Ny Nx Hy' Hx' E2) in E1. discriminate.
+Qed.
+(* the union of the two domains is the whole conflation domain *)
+Lemma kf_split_l : forall fs, hashable_request fs ->
+  kf_hash_conflation fs = kf_canon_conflation fs || kf_hash_collision fs.
+Proof.
+  intros fs Hh. unfold kf_hash_conflation, kf_canon_conflation, kf_hash_collision.
+  destruct (existsb _ fs) eqn:E at 1.
+  - symmetry. apply existsb_exists in E. destruct E as (a & Ha & E). apply existsb_exists in E. destruct E as (b & Hb & E).
+    apply andb_true_iff in E. destruct E as [E1 E2]. apply orb_true_iff.
+    destruct (canon_eqb a b) eqn:Ec.
+    + left. apply existsb_exists. exists a. split; [exact Ha|]. apply existsb_exists. exists b. split; [exact Hb|]. rewrite Ec, E2. reflexivity.
+    + right. apply existsb_exists. exists a. split; [exact Ha|]. apply existsb_exists. exists b. split; [exact Hb|]. rewrite E1, Ec. reflexivity.
+  - symmetry. apply orb_false_iff. split.
+    + destruct (existsb _ fs) eqn:E' at 1; [|reflexivity]. exfalso.
+      apply existsb_exists in E'. destruct E' as (a & Ha & E'). apply existsb_exists in E'. destruct E' as (b & Hb & E').
+      apply andb_true_iff in E'. destruct E' as [E1 E2].
+      pose proof (existsb_false_in _ _ _ a E Ha) as H1. cbv beta in H1. pose proof (existsb_false_in _ _ _ b H1 Hb) as H2. cbv beta in H2.
+      rewrite (canon_eqb_base_eqb a b E1), E2 in H2. discriminate.
+    + destruct (existsb _ fs) eqn:E' at 1; [|reflexivity]. exfalso.
+      apply existsb_exists in E'. destruct E' as (a & Ha & E'). apply existsb_exists in E'. destruct E' as (b & Hb & E').
+      apply andb_true_iff in E'. destruct E' as [E1 E2].
+      pose proof (existsb_false_in _ _ _ a E Ha) as H1. cbv beta in H1. pose proof (existsb_false_in _ _ _ b H1 Hb) as H2. cbv beta in H2.
+      rewrite E1 in H2. cbn in H2. destruct (opts_agree a b) eqn:Eo; [|discriminate].
+      destruct (Hh a Ha) as (Wa & Na & Ha'). destruct (Hh b Hb) as (Wb & Nb & Hb').
+      rewrite (agree_canon_eqb a b Wa Wb Na Nb Ha' Hb' Eo) in E2. discriminate.
 Qed.
